@@ -94,6 +94,62 @@ let run id op a =
   | "iszero" -> Printf.sprintf "%s %s" (bit (ZZ.equal (b (n 0)) bfe_zero)) (bit (ZZ.equal (b (n 0)) bfe_one))
   | "incdec" ->
       Printf.sprintf "%s %s" (s (bfe_value (bfe_add (b (n 0)) bfe_one))) (s (bfe_value (bfe_sub (b (n 0)) bfe_one)))
+  | "montyred" ->
+      let x = z (n 0) in
+      let r = montyred x in
+      (* specified range: x < p * 2^64: canonical result congruent to x * 2^-64 *)
+      if ZZ.lt x (ZZ.mul p (ZZ.shift_left ZZ.one 64)) &&
+         not (ZZ.lt r p && ZZ.equal (md (ZZ.mul r (ZZ.shift_left ZZ.one 64))) (md x))
+      then "SPECDIFF montyred" else s r
+  | "rawviews" ->
+      let x = b (n 0) in
+      let rb = raw_bytes x and r16 = raw_u16s x in
+      let ok1 = ZZ.equal (from_le_chunks (ZZ.of_int 8) rb) x and ok2 = ZZ.equal (from_le_chunks (ZZ.of_int 16) r16) x in
+      Printf.sprintf "%s | %s | %s %s | %s %s 1 | %s"
+        (String.concat " " (List.map s rb)) (String.concat " " (List.map s r16)) (s x) (s x) (bit ok1) (bit ok2)
+        (bit (is_canonical (z (n 0))))
+  | "poweracc" ->
+      let m = int_of_string (n 0) in
+      let rec nat k = if k = 0 then O else S (nat (k - 1)) in
+      let r = power_accumulator (nat m) [b (n 1); b (n 2)] [b (n 3); b (n 4)] in
+      let expect i t = md (ZZ.mul (ZZ.powm (z (n i)) (ZZ.shift_left ZZ.one m) p) (z (n t))) in
+      (match r with
+       | [r0; r1] ->
+           if ZZ.equal (bfe_value r0) (expect 1 3) && ZZ.equal (bfe_value r1) (expect 2 4)
+           then Printf.sprintf "%s %s" (s (bfe_value r0)) (s (bfe_value r1)) else "SPECDIFF power_accumulator"
+       | _ -> "ORACLE-ERROR")
+  | "sum" ->
+      let r = bfe_sum (List.map b a) in
+      if ZZ.equal (bfe_value r) (md (List.fold_left (fun acc v -> ZZ.add acc (z v)) ZZ.zero a)) then s (bfe_value r)
+      else "SPECDIFF sum"
+  | "cyclic" ->
+      let maxn = if n 1 = "-" then None else Some (z (n 1)) in
+      let rec nat k = if k = 0 then O else S (nat (k - 1)) in
+      (match cyclic_group_elements (nat 100000) (b (n 0)) maxn with
+       | None -> "ORACLE-OUT-OF-FUEL"
+       | Some l ->
+           (* spec: successive powers 1, g, g^2, ... *)
+           let g = md (z (n 0)) in
+           let ok = fst (List.fold_left (fun (ok, pw) y -> (ok && ZZ.equal (bfe_value y) pw, md (ZZ.mul pw g))) (true, ZZ.one) l) in
+           if ok then String.concat " " (List.map (fun y -> s (bfe_value y)) l) else "SPECDIFF cyclic")
+  | "generator" -> show (b "7")
+  | "consts" -> Printf.sprintf "%s %s %s 8" (s p) (s (ZZ.pred p)) (s (md (ZZ.neg (ZZ.invert (ZZ.of_int 2) p))))
+  | "xsum" -> showx (xsum (List.map (fun c -> x3 c 0) (chunks3 a)))
+  | "xnewconst" -> showx (xnew_const (b (n 0)))
+  | "xtryslice" -> (match xtry_from_slice (List.map b a) with Some x -> showx x | None -> "ERR")
+  | "xincr" -> opt showx (xincrement (x3 a 0) (z (n 3)))
+  | "xdecr" -> opt showx (xdecrement (x3 a 0) (z (n 3)))
+  | "xroot" -> (match xroot (z (n 0)) with Some r -> showx r | None -> "NONE")
+  | "xcyclic" ->
+      (* spec-level: successive products with xmul, max elements *)
+      let g = x3 a 0 and mx = int_of_string (n 3) in
+      let one = ((bfe_one, bfe_zero), bfe_zero) in
+      let rec go acc v k =
+        let acc = v :: acc in
+        let v' = xmul v g in
+        if xeqb v' one || k + 1 >= mx then List.rev acc else go acc v' (k + 1) in
+      String.concat " " (List.map showx (go [one] g 1))
+  | "shah" -> Printf.sprintf "1 %s 0 1" (s (ZZ.pred p))
   | "xadd" -> showx (xadd (x3 a 0) (x3 a 3))
   | "xsub" -> showx (xsub (x3 a 0) (x3 a 3))
   | "xmul" -> showx (xmul (x3 a 0) (x3 a 3))
